@@ -9,7 +9,7 @@ import (
 
 // Styles a scalar can be written in. The first is the default.
 var Styles = []string{"plain", "single", "double", "literal", "literal-strip", "literal-keep", "folded", "folded-strip", "folded-keep",
-	"literal-indent-indicator", "plain-multiline", "double-multiline", "literal-indent1", "literal-indent4", "single-multiline", "folded-indent1", "literal-blank-lines"}
+	"literal-indent-indicator", "plain-multiline", "double-multiline", "literal-indent1", "literal-indent4", "single-multiline", "folded-indent1", "literal-blank-lines", "literal-leading-blank", "folded-leading-blank", "literal-keep-trailing-blank", "literal-strip-leading-blank2"}
 
 // renderScalar returns the lines for "key:<scalar>" at indentation ind (the key's own indentation).
 // ok=false when the style cannot carry the value.
@@ -44,6 +44,21 @@ func renderScalar(ind int, key, val string, style int) (lines []string, ok bool)
 			return nil, false
 		}
 		return []string{pad + key + ": \"" + val + "\""}, true
+	case "literal-leading-blank", "folded-leading-blank", "literal-keep-trailing-blank", "literal-strip-leading-blank2":
+		if val != strings.TrimRight(val, " \n") || strings.HasPrefix(val, " ") || val == "" || (multi && strings.HasPrefix(Styles[style], "folded")) {
+			return nil, false
+		}
+		body := strings.Split(val, "\n")
+		switch Styles[style] {
+		case "literal-leading-blank":
+			return append([]string{pad + key + ": |", ""}, cont(2, body)...), true
+		case "folded-leading-blank":
+			return append([]string{pad + key + ": >", ""}, cont(2, body)...), true
+		case "literal-strip-leading-blank2":
+			return append([]string{pad + key + ": |-", "", ""}, cont(2, body)...), true
+		default:
+			return append(append([]string{pad + key + ": |+"}, cont(2, body)...), "", ""), true
+		}
 	case "literal", "literal-strip", "literal-keep", "literal-indent-indicator", "literal-indent1", "literal-indent4", "literal-blank-lines":
 		if val != strings.TrimRight(val, " \n") || strings.HasPrefix(val, " ") || val == "" {
 			return nil, false
